@@ -549,7 +549,8 @@ async fn probe_task(
     // Handlers which are in the middle of an "accept late" sleep finish it first
     Timer::after(Duration::from_millis(2_000)).await;
     let list: Vec<Workload> = (0..planted.len())
-        .filter(|i| planted[*i].a == app.node || planted[*i].b == app.node)
+        // (the raw peer - node index 100 - does not answer probes)
+        .filter(|i| (planted[*i].a == app.node || planted[*i].b == app.node) && planted[*i].a < 100 && planted[*i].b < 100)
         .map(|i| Workload {
             id: PROBE_WL_BASE + i as u16,
             planted: i,
